@@ -216,7 +216,42 @@ class C11(Profile):
         return cfg
 
 
-PROFILES = {"C11": C11(), "C08": C08(), "C02": C02(), "C09": C09(), "C10": C10()}
+class C07(Profile):
+    name = "C07"
+    steps = (25, 45)
+    runs = {"quick": 700, "thorough": 30000}
+    expected_probes = ["per_call_checked", "seed_pair_checked",
+                       "distribution_checked"]
+
+    @property
+    def monitors(self):
+        from .monitors.c07 import SamplingMonitor  # noqa: PLC0415
+        return [SamplingMonitor]
+
+    @property
+    def clients(self):
+        from . import consumers as co  # noqa: PLC0415
+        return [(cl.Builder, 2.0), (cl.Composer, 1), (co.SamplerUser, 5),
+                (co.QuickUser, 2.5), (cl.Bystander, 0.6)]
+
+    def swarm(self, rng):
+        cfg = super().swarm(rng)
+        cfg["max_modes"] = rng.randint(2, 5)
+        cfg["emu_max_modes"] = 6
+        cfg["max_total_modes"] = 8
+        cfg["max_heralds"] = 2
+        cfg["max_herald_photons"] = 2
+        cfg["max_photons"] = rng.choice([1, 2, 2, 3])
+        cfg["max_params"] = 0
+        cfg["p_param"] = 0
+        cfg["big_n"] = True
+        cfg["convert"] = False
+        w = cfg["weights"]
+        w["sampler_user"] = max(w["sampler_user"], 2.5)
+        return cfg
+
+
+PROFILES = {"C07": C07(), "C11": C11(), "C08": C08(), "C02": C02(), "C09": C09(), "C10": C10()}
 
 
 def get(name: str) -> Profile:
